@@ -135,6 +135,9 @@ func (o *longObs) OnStep(st tabledrv.Step, before, after portalwire.VerifTableSn
 	if !okB || (st.PingInc != 0 && b.Inc != st.PingInc) {
 		return
 	}
+	if st.PingNode != nil && (b.IP != st.PingNode.IPAddr() || b.UDP != st.PingNode.UDP()) {
+		return // the entry moved to another endpoint while the check was in flight: the result is not for it
+	}
 	if b.Checks > o.maxCheck {
 		o.maxCheck = b.Checks
 	}
